@@ -9,6 +9,7 @@
 import json, os, time
 import vlib
 from props import irc_common
+import irclib
 from props import c11 as api
 from props import c10
 from props.c11 import hx, unhx
@@ -42,7 +43,8 @@ def gen_case(rng, ci, quick):
         elif shape < 0.45:     # around the 510/512 byte marks
             n = rng.choice([440, 470, 480, 495, 500, 505, 509, 510, 511, 512, 513, 520, 600])
             head = "PRIVMSG %s :" % chan
-            line = head + "y" * max(0, n - len(head)) + tail
+            fill = rng.choice(["y", "y", "\u00fc", "\u20ac", "\U0001f600"])   # the 510-byte cut may fall inside a multi-byte character
+            line = head + "y" * rng.randint(0, 3) + fill * max(0, (n - len(head)) // len(fill.encode("utf-8")) + 2) + tail
         elif shape < 0.75:     # ignored middle parameters push the trailing parameter past 512 bytes, the reply stays short
             n = rng.choice([200, 250, 260, 270, 300, 400, 700, 900])
             cmd = rng.choice(["PRIVMSG %s" % chan, "NOTICE %s" % chan, "PRIVMSG %s" % other, "TOPIC %s" % chan])
@@ -80,6 +82,9 @@ def line_faults(data):
     f = []
     if len(data) > 510:
         f.append(("toolong", "%d bytes" % len(data)))
+    elif len(irclib.go_json_delivered(data)) > 510:
+        f.append(("len-delivered", "%d bytes stored, %d bytes once the JSON encoder of GET /messages has replaced the bytes of an incomplete "
+                  "UTF-8 sequence at the cut" % (len(data), len(irclib.go_json_delivered(data)))))
     for c, nm in ((b"\n", "LF"), (b"\r", "CR"), (b"\x00", "NUL")):
         if c in data:
             f.append(("ctl:" + nm, "contains %s at offset %d" % (nm, data.index(c))))
